@@ -144,3 +144,83 @@ func H15Name() {
 	err := writeTarContents(w, c, "")
 	vAssert("name/path-like-name-refused-plain-name-accepted", (err != nil) == (name != "a" && name != "c"))
 }
+
+// H15Tree: "the same tree of dependencies" — a symbolic tree shape up to four
+// levels deep and two wide (root → {mid → {leaf → {deep}, leaf2}, side}), every
+// chart with its own values and one template: the loaded tree has the same
+// shape, the same names and versions at every position, and every chart keeps
+// its own template and values.
+type c15Shape struct {
+	name     string
+	children []*c15Shape
+}
+
+func c15Build(s *c15Shape, level int) *chart.Chart {
+	c := &chart.Chart{Metadata: &chart.Metadata{Name: s.name, Version: fmt.Sprintf("0.%d.0", level), APIVersion: chart.APIVersionV2}}
+	c.Templates = []*chart.File{{Name: "templates/" + s.name + ".yaml", Data: []byte("t-" + s.name)}}
+	c.Raw = []*chart.File{{Name: "values.yaml", Data: []byte("owner: " + s.name + "\n")}}
+	c.Values = map[string]interface{}{"owner": s.name}
+	for _, ch := range s.children {
+		c.AddDependency(c15Build(ch, level+1))
+	}
+	return c
+}
+
+func c15SameTree(s *c15Shape, level int, got *chart.Chart) bool {
+	if got == nil || got.Name() != s.name || got.Metadata.Version != fmt.Sprintf("0.%d.0", level) {
+		return false
+	}
+	t := findFile(got.Templates, "templates/"+s.name+".yaml")
+	if t == nil || string(t.Data) != "t-"+s.name || len(got.Templates) != 1 {
+		return false
+	}
+	if got.Values["owner"] != s.name {
+		return false
+	}
+	deps := got.Dependencies()
+	if len(deps) != len(s.children) {
+		return false
+	}
+	for _, ch := range s.children {
+		var match *chart.Chart
+		for _, d := range deps {
+			if d.Name() == ch.name {
+				match = d
+			}
+		}
+		if !c15SameTree(ch, level+1, match) {
+			return false
+		}
+	}
+	return true
+}
+
+func H15Tree() {
+	root := &c15Shape{name: "root"}
+	if ndBool("mid") {
+		mid := &c15Shape{name: "mid"}
+		root.children = append(root.children, mid)
+		if ndBool("leaf") {
+			leaf := &c15Shape{name: "leaf"}
+			mid.children = append(mid.children, leaf)
+			if ndBool("deep") {
+				leaf.children = append(leaf.children, &c15Shape{name: "deep"})
+			}
+		}
+		if ndBool("leaf2") {
+			mid.children = append(mid.children, &c15Shape{name: "leaf2"})
+		}
+	}
+	if ndBool("side") {
+		side := &c15Shape{name: "side"}
+		root.children = append(root.children, side)
+		if ndBool("sideleaf") {
+			// same name as a chart elsewhere in the tree
+			side.children = append(side.children, &c15Shape{name: "leaf"})
+		}
+	}
+	got, err := saveAndLoad(c15Build(root, 1))
+	vAssert("tree/loads", err == nil && got != nil)
+	vAssert("tree/same-dependency-tree-at-every-level", c15SameTree(root, 1, got))
+	vObservef("deps=%d", len(got.Dependencies()))
+}
